@@ -12,6 +12,7 @@ import (
 func httpUpgraderRules(c *Ctx, prop string) {
 	rule := prop + ".httpupgrader-decision-table"
 	c.R.Rule(rule, 1, "HTTPUpgrader.Upgrade succeeds exactly for GET, HTTP/1.x (x>=1), Host, Upgrade: websocket, Connection with the upgrade token, a 24-byte key and version 13; every refusal names a rule that is broken; no 101 on failure")
+	c.rejectionField("header")
 	f := c.method(rule, ws, "HTTPUpgrader", "Upgrade")
 	hu := c.P.NamedType(ws, "HTTPUpgrader")
 	if f == nil || hu == nil {
